@@ -103,7 +103,7 @@ def positions_reached(source: str):
 
 
 # ----------------------------------------------------------------------------- project generation
-def gen_tree(rng, comps=None, max_depth=4, root="proj", init_prob=0.7, extra_files=True):
+def gen_tree(rng, comps=None, max_depth=4, root="proj", init_prob=0.7, extra_files=True, shadow=False):
     """Returns dict relpath -> None (dir) / "" (file placeholder). Paths relative to tmp base, first component = root."""
     comps = comps or ["a", "b", "c", "ab", "a_b", "pkg", "m", "util", "utils", "x", "py", "pyx", "pyutil"]
     tree = {root: None}
@@ -114,15 +114,18 @@ def gen_tree(rng, comps=None, max_depth=4, root="proj", init_prob=0.7, extra_fil
         if d.count("/") + 1 >= max_depth:
             continue
         c = rng.choice(comps)
+        # a module file next to a package directory of the same name (x.py and x/, e.g. left over after turning a module
+        # into a package) is generated now and then when `shadow` is set: both are scanned and carry the same module name
+        twin_ok = shadow and rng.random() < 0.5
         if rng.random() < 0.45:
             p = d + "/" + c
-            if p + ".py" in tree or p in tree:
+            if (p + ".py" in tree and not twin_ok) or p in tree:
                 continue
             tree[p] = None
             dirs.append(p)
         else:
             p = d + "/" + c + ".py"
-            if p in tree or (d + "/" + c) in tree:
+            if p in tree or ((d + "/" + c) in tree and not twin_ok):
                 continue
             tree[p] = ""
     for d in list(dirs):
@@ -140,7 +143,7 @@ def module_of(relpath: str) -> str:
     return p.replace("/", ".")
 
 
-EXTERNALS = ["os", "os.path", "ext.lib.x", "ext.lib", "extra", "proj_ext.m", "projx", "aproj", "ab.cd", "a"]
+EXTERNALS = ["os", "os.path", "ext.lib.x", "ext.lib", "extra", "proj_ext.m", "projx", "aproj", "ab.cd", "a", "ext.lib.x.y.z", "deep.er.than.most"]
 
 
 def gen_imports(rng, tree, relpath, root="proj", externals=True, n=None):
